@@ -666,9 +666,30 @@ def run_lockstep_scenario(ctx, vt, scenario, oracle=True):
     return node
 
 
+def gen_parked(rng, cfg):
+    """directed: park 1..3 packets for a far network, then the I-Am-Router that releases them"""
+    own = [x["net"] for x in cfg["adapters"] if x["net"] is not None]
+    cached = {e[1] for e in cfg.get("cache", [])}
+    dn = rng.choice([n for n in (9, 10, 11, 12, 13) if n not in own and n not in cached])
+    evs = []
+    for i in range(rng.choice([1, 2, 3])):
+        dest = ["rs", dn, rng.choice(MACS1[:8]).hex()] if rng.random() < 0.6 else ["rb", dn]
+        evs.append({"op": "send", "dest": dest, "er": False, "prio": 0, "data": bytes([0x10, 8, i]).hex()})
+    a = rng.choice(cfg["adapters"])
+    nets = [dn] + ([rng.choice([20, 21])] if rng.random() < 0.3 else [])
+    rng.shuffle(nets)
+    n = {"dadr": None, "sadr": None, "hop": None, "msg": 1, "vendor": None, "er": False, "prio": 0,
+         "data": b"".join(x.to_bytes(2, "big") for x in nets).hex()}
+    evs.append({"op": "recv", "aid": a["aid"], "src": rng.choice(MACS1[8:12]).hex(),
+                "dst": None if rng.random() < 0.5 else (a["addr"] or "01"), "raw": enc_npdu(n).hex()})
+    return evs
+
+
 def gen_lockstep(ctx, rng, known):
     cfg = gen_node_cfg(rng)
     events = []
+    if rng.random() < 0.25:
+        events += gen_parked(rng, cfg)
     for _ in range(rng.choice([6, 10, 16])):
         r = rng.random()
         if r < 0.72:
@@ -936,6 +957,8 @@ def route_tables(spec):
 
 
 PAYLOAD = "1008"
+PAYLOAD2 = "100801"
+PAYLOAD3 = "10080203"
 
 
 def expected(spec, src, dest, src_knows):
@@ -1020,13 +1043,15 @@ def frame_oracle(ctx, case, world, spec, src, dest, dist, payload):
     return per_lan
 
 
-def send_and_check(ctx, world, spec, case, sidx, dest, dist, payload=PAYLOAD, check=True):
-    """originate at station index sidx, settle, evaluate the property; returns ups"""
+def send_and_check(ctx, world, spec, case, sidx, dest, dist, payloads=(PAYLOAD,), check=True):
+    """originate at station index sidx (one packet per payload, back to back), settle, evaluate the
+    property for every payload; returns the ups of the first payload"""
     src = spec["stations"][sidx]
     node = world.nodes[sidx]
     marks = [len(n.log) for n in world.nodes]
     world.frames = []
-    node.send(dest, False, 0, payload)
+    for pl in payloads:
+        node.send(dest, False, 0, pl)
     ok = world.settle()
     if not ok:
         ctx.fail("no-quiescence", case, "the internetwork did not become quiet", clause="forwarding_terminates")
@@ -1037,8 +1062,15 @@ def send_and_check(ctx, world, spec, case, sidx, dest, dist, payload=PAYLOAD, ch
     bad = errors_in_logs(world, marks)
     if bad:
         ctx.fail("exception", case, "exception in a node: %r" % (bad[:3],))
-    got = collect_ups(world, marks)
-    if check:
+    allgot = collect_ups(world, marks)
+    first = None
+    for payload in payloads:
+        got = {k: [u for u in v if u["data"] == payload] for k, v in allgot.items()}
+        got = {k: v for k, v in got.items() if v}
+        if first is None:
+            first = got
+        if not check:
+            continue
         want = expected(spec, src, dest, node.adapters[0].adapterNet is not None)
         for key in set(want) | set(got):
             ups = got.get(key, [])
@@ -1047,7 +1079,7 @@ def send_and_check(ctx, world, spec, case, sidx, dest, dist, payload=PAYLOAD, ch
                          clause="exactly", station=list(key))
                 continue
             if len(ups) != 1:
-                ctx.fail("delivery-count", case, "station %r received %d copies, expected 1" % (key, len(ups)),
+                ctx.fail("delivery-count", case, "station %r received %d copies of %s, expected 1" % (key, len(ups), payload),
                          clause="once", station=list(key), count=len(ups))
                 continue
             u = ups[0]
@@ -1055,13 +1087,13 @@ def send_and_check(ctx, world, spec, case, sidx, dest, dist, payload=PAYLOAD, ch
                 ctx.fail("source-shown", case, "station %r sees source %r, expected %r" % (key, u["src"], want[key][0]),
                          clause="source_shown")
             if u["dst"] != want[key][1]:
-                # a station that bound without an address is shown its link destination all the same
                 ctx.fail("destination-shown", case, "station %r sees destination %r, expected %r" % (key, u["dst"], want[key][1]),
                          clause="destination_shown")
-            if u["data"] != payload:
-                ctx.fail("payload", case, "payload changed", clause="payload")
         frame_oracle(ctx, case, world, spec, src, dest, dist, payload)
-    return got
+    stray = [u for v in allgot.values() for u in v if u["data"] not in payloads]
+    if stray and check:
+        ctx.fail("payload", case, "a payload nobody sent was delivered: %r" % (stray[:1],), clause="payload")
+    return first
 
 
 def dest_choices(spec, sidx):
@@ -1119,8 +1151,11 @@ def run_tree_scenario(ctx, vt, sc, node_lockstep=True):
             if sc["learn"]:
                 world.learn_numbers()
         topo = world.topo_request() if sc["cache_mode"] != "cold" or dest[0] in ("gb", "lb", "ls") else None
-        got = send_and_check(ctx, world, spec, case, sidx, dest, dist)
-        shape = (sc["cache_mode"], sc["learn"], dest[0], min(len(spec["nets"]), 5), max(len(r) for r in spec["routers"]))
+        burst = bool(sc.get("burst")) and k % 2 == 1
+        case["burst"] = burst
+        got = send_and_check(ctx, world, spec, case, sidx, dest, dist,
+                             payloads=(PAYLOAD, PAYLOAD2, PAYLOAD3) if burst else (PAYLOAD,))
+        shape = (sc["cache_mode"], sc["learn"], dest[0], min(len(spec["nets"]), 5), max(len(r) for r in spec["routers"]), burst)
         ctx.count("e2e", shape)
         if got is None:
             world = None
@@ -1186,7 +1221,7 @@ def gen_tree_scenario(ctx, rng, exhaustive=False, nsends=4):
                 kinds.add(c[1][0]); picked.append(c)
         picked += [c for c in combos if c not in picked][: max(0, nsends - len(picked))]
         combos = picked[:max(nsends, 5)]
-    return {"spec": spec, "cache_mode": cache_mode, "learn": learn, "sends": combos,
+    return {"spec": spec, "cache_mode": cache_mode, "learn": learn, "sends": combos, "burst": True,
             "reply": True, "max_replies": 2 if not exhaustive else 3}
 
 
@@ -1326,7 +1361,9 @@ def run_case(ctx, vt, case):
     elif kind == "e2e":
         sc = {"spec": fix_spec(case["spec"]), "cache_mode": case["cache_mode"], "learn": case.get("learn", False),
               "sends": [tuple(case["send"])] if "send" in case else [tuple(s) for s in case["sends"]],
-              "reply": True, "max_replies": 3}
+              "reply": True, "max_replies": 3, "burst": case.get("burst", False)}
+        if case.get("burst") and "send" in case:
+            sc["sends"] = [sc["sends"][0], sc["sends"][0]]     # the burst is the odd-numbered send
         run_tree_scenario(ctx, vt, sc)
     elif kind == "cycle":
         sc = {"spec": fix_spec(case["spec"]), "send": case["send"],
